@@ -5,7 +5,27 @@ use q1tsim::verif::Snapshot;
 
 fn emit_run(out: &mut Out, ct: &CircuitText, shots: usize, seed: u64, repr: &str, max_shot_lines: usize, rng: &mut SplitMix64)
 {
+    emit_run_h(out, ct, shots, seed, repr, max_shot_lines, rng, None)
+}
+
+/// Writes the request under a tag: lines of a run that was NOT the first execution of its `Circuit` object start with
+/// `again ` (the drivers strip the tag: the requirement is the same as for a first run).
+struct Tagged<'a> { out: &'a mut Out, tag: &'static str }
+impl<'a> Tagged<'a> { fn case(&mut self, req: &str, ans: &str) { self.out.case(&format!("{}{}", self.tag, req), ans); } }
+
+/// `first = Some((seed1, repr1))`: "executed again on the same object" - the circuit is first executed with `seed1` on
+/// `repr1` (same shot count), then AGAIN on the same `Circuit` object with `seed`/`repr`; the trace, the steps and the shot
+/// replays are those of the SECOND run.  `execute*` clears quantum and classical state, so the pre-state of its first
+/// operation is the fresh state with a ZERO register, exactly as in a first run.
+fn emit_run_h(out: &mut Out, ct: &CircuitText, shots: usize, seed: u64, repr: &str, max_shot_lines: usize, rng: &mut SplitMix64, first: Option<(u64, &str)>)
+{
     let mut circuit = match build(ct) { Ok(c) => c, Err(_) => return };
+    if let Some((seed1, repr1)) = first
+    {
+        let r1 = execute_traced(&mut circuit, ct.nq, shots, seed1, repr1);
+        if !matches!(r1.result, Some(Ok(()))) { return; }
+    }
+    let out = &mut Tagged { out, tag: if first.is_some() { "again " } else { "" } };
     let run = execute_traced(&mut circuit, ct.nq, shots, seed, repr);
     // per-operation steps ("auto": the representation the library chose)
     let init_repr = if repr == "auto" { if circuit.is_stabilizer_circuit() { "stabilizer" } else { "vector" } } else { repr };
@@ -119,6 +139,21 @@ fn main()
         let ct = CircuitText { nq, nc, ops };
         let seed = rng.next();
         emit_run(&mut out, &ct, [3usize, 8, 24][i % 3], seed, ["stabilizer", "auto", "vector"][i % 3], 8, &mut rng);
+    }
+    // Executed AGAIN on the same object with the same shot count (the requirement on the second run is that of a first run):
+    // feedback circuits, whose conditional gates read classical bits BEFORE the measurement that writes them in this run,
+    // and circuits of the random streams above.
+    let nagain = if thorough() { 1500 } else { 300 };
+    for i in 0..nagain
+    {
+        let clifford = i % 3 != 2;
+        let ct = if i % 4 == 3 { gen_circuit(if clifford { &cfg_s } else { &cfg }, &mut rng) } else { gen_feedback_circuit(&mut rng, clifford) };
+        let shots = [1usize, 2, 3, 7, 20, 40][i % 6];
+        let (seed1, seed) = (rng.next(), rng.next());
+        let repr = if clifford { ["stabilizer", "vector", "auto"][(i / 3) % 3] } else { "vector" };
+        // now and then the first run used the other representation
+        let repr1 = if clifford && i % 5 == 0 { if repr == "vector" { "stabilizer" } else { "vector" } } else { repr };
+        emit_run_h(&mut out, &ct, shots, seed, repr, 6, &mut rng, Some((seed1, repr1)));
     }
     let n = out.finish();
     eprintln!("c02: {} cases", n);
